@@ -171,6 +171,29 @@ def correspond(ctx):
                 lines.append('import %s %d %d %d %d %d %s' % (want_tc, mm, nn, s0, s1, base, ','.join(ntok(v) for v in vals) or '-'))
                 expect.append(obs); meta.append({'format': fmt, 'kind': kind, 'values': vals})
             distinct.add(('import', fmt, kind))
+        # buffer import with an explicit byte order / other element formats (ctypes exporters: '<d', '>d', '>i', '<f', '<q', ...): the matrix
+        # either reproduces the exported values exactly or refuses the buffer (TypeError); a wrong value is never acceptable
+        if rng.random() < 0.35:
+            import ctypes
+            base_t = rng.choice([ctypes.c_double, ctypes.c_int, ctypes.c_float, ctypes.c_long, ctypes.c_short])
+            order = rng.choice(['native', 'be', 'le'])
+            t = base_t if order == 'native' else (base_t.__ctype_be__ if order == 'be' else base_t.__ctype_le__)
+            cnt = rng.randint(1, 6); isf = base_t in (ctypes.c_double, ctypes.c_float)
+            vals = [(rng.randint(-8, 8) / 2.0 if isf else rng.randint(-9, 9)) for _ in range(cnt)]
+            two_d = rng.random() < 0.3 and cnt % 2 == 0
+            src = ((t * (cnt // 2)) * 2)(*[tuple(vals[:cnt // 2]), tuple(vals[cnt // 2:])]) if two_d else (t * cnt)(*vals)
+            fmt_ = memoryview(src).format
+            evals += 1; distinct.add(('import-format', fmt_))
+            try:
+                B = matrix(src)
+                got = [float(v) for v in B]
+                want = ([vals[(q % 2) * (cnt // 2) + q // 2] for q in range(cnt)] if two_d else vals)          # a C-ordered 2 x k source, read column by column
+                if got != [float(v) for v in want]:
+                    ctx.violation('c20:buffer-import-values', 'matrix(buffer with format %r) has the values %r, the exporter holds %r' % (fmt_, got, want),
+                                  {'format': fmt_, 'values': vals, 'two_d': two_d})
+            except TypeError: pass
+            except Exception as e:
+                ctx.violation('c20:buffer-import-raises:' + type(e).__name__, 'matrix(buffer with format %r) raised %s: %s' % (fmt_, type(e).__name__, e), {'format': fmt_, 'values': vals})
         # sparse
         sm, sk = rng.randint(0, 4), rng.randint(0, 4)
         stc = rng.choice('dz')
